@@ -255,7 +255,7 @@ func jsonrtF11Repair(o, g protoreflect.Message) int {
 var jsonrtCoreCache = map[protoreflect.FullName]bool{}
 
 // jsonrtCore: every message type reachable from md is ordinary or one of the wrappers, Struct, ListValue,
-// Value, Empty, Timestamp, Duration -- the part of C20 that is proved (json_core2).
+// Value, Empty, Timestamp, Duration, FieldMask -- the part of C20 that is proved (json_core2: everything but Any).
 func jsonrtCore(md protoreflect.MessageDescriptor) bool {
 	if v, ok := jsonrtCoreCache[md.FullName()]; ok {
 		return v
@@ -263,7 +263,7 @@ func jsonrtCore(md protoreflect.MessageDescriptor) bool {
 	_, list := rtCollectTypes(md, nil)
 	ok := true
 	for _, d := range list {
-		if c := rtWktCode(d); c == 1 || c == 8 {
+		if c := rtWktCode(d); c == 1 {
 			ok = false
 		}
 	}
@@ -562,7 +562,7 @@ func jsonrtKW(c *Ctx) *rtTarget {
 	}
 	fdp := &descriptorpb.FileDescriptorProto{
 		Name: proto.String("verif/kw.proto"), Package: proto.String("verif"), Syntax: proto.String("proto2"),
-		Dependency: []string{"google/protobuf/struct.proto", "google/protobuf/wrappers.proto", "google/protobuf/timestamp.proto", "google/protobuf/duration.proto"},
+		Dependency: []string{"google/protobuf/struct.proto", "google/protobuf/wrappers.proto", "google/protobuf/timestamp.proto", "google/protobuf/duration.proto", "google/protobuf/field_mask.proto"},
 		MessageType: []*descriptorpb.DescriptorProto{{Name: proto.String("KW"), Field: []*descriptorpb.FieldDescriptorProto{
 			f("opt_null", "optNull", 1, opt, descriptorpb.FieldDescriptorProto_TYPE_ENUM.Enum(), ".google.protobuf.NullValue"),
 			f("n", "n", 2, opt, descriptorpb.FieldDescriptorProto_TYPE_INT32.Enum(), ""),
@@ -573,6 +573,7 @@ func jsonrtKW(c *Ctx) *rtTarget {
 			f("rv", "rv", 7, rep, msg, ".google.protobuf.Value"),
 			f("ts", "ts", 8, opt, msg, ".google.protobuf.Timestamp"),
 			f("dur", "dur", 9, opt, msg, ".google.protobuf.Duration"),
+			f("fm", "fm", 10, opt, msg, ".google.protobuf.FieldMask"),
 		}}},
 	}
 	fd, err := protodesc.NewFile(fdp, protoregistry.GlobalFiles)
